@@ -242,3 +242,28 @@ def run(ctx):
         ctx.cov["stage2_conformance_runs"] = conf
     ctx.assumptions += ["stage 2 is built with il2c + gcc as backend substitute (no qbe in the sandbox); il2c is bound to QbeMachine.tla by C01",
                         "equality is observed on the explored inputs only"]
+
+
+def replay(ctx, path):
+    """Run both stages on the recorded input again and compare stdout, stderr and exit status."""
+    case = json.load(open(path)).get("case", {})
+    if "source" not in case:
+        print("replay: no input recorded for this violation (%s)" % list(case))
+        return 2
+    s1 = vlib._build_stage1("plain")
+    try:
+        s2 = stage2.build("plain")
+    except stage2.Stage2Failure as ex:
+        print("stage 2 cannot be built: " + ex.detail[:500])
+        return 1
+    f = ctx.path("replay.c")
+    with open(f, "wb") as o:
+        o.write(case["source"].encode("utf-8", "surrogateescape"))
+    res = []
+    for d in (s1, s2):
+        res.append(vlib.cproc(d, None, case.get("target", "x86_64-sysv"), args=(["-E"] if case.get("mode") == "E" else []), path=f, timeout=60, stack=1 << 30))
+    for n, (rc, out, err) in zip(("stage 1", "stage 2"), res):
+        print("%s: rc=%s stdout sha=%s stderr=%r" % (n, rc, h(out), err[:200]))
+    same = res[0] == res[1] and res[0][0] in (0, 1, 2)
+    print("verdict:  " + ("stages agree" if same else "stages differ"))
+    return 0 if same else 1
